@@ -537,7 +537,14 @@ pub fn check_rejects(expect: &serde_json::Value, result: &serde_json::Value, g: 
         if msgs.is_empty() {
             let f = vec![("property", "C14".to_string()), ("kind", "colliding-set-compiles".to_string())];
             g.add("compiled-collision", &f, (key_bytes.len(), &key_bytes), || {
-                (json!({"module": name, "decls": decls}), format!("declarations {:?} collide ({want} expected) but the module compiled without error", decls))
+                (
+                    json!({"module": name, "decls": decls}),
+                    if m["dup_key"] == true {
+                        format!("the first handler of {:?} is declared with two `cmd` keys in one attribute; the module compiled without error, so one of the two declarations was dropped silently", decls)
+                    } else {
+                        format!("declarations {:?} collide ({want} expected) but the module compiled without error", decls)
+                    },
+                )
             });
         } else if !msgs.iter().any(|x| x.contains(want)) {
             let f = vec![("property", "C14".to_string()), ("kind", "rejected-for-another-reason".to_string())];
